@@ -211,7 +211,69 @@ def definition_lookup(si: int, mi: int) -> bool:
     return len(got) == 0
 
 
-FUNCS_C21 = ['match_single_key', 'match_key_list', 'match_case_invariant']
+IMPORT_NAMES = ['helper', 'HELPER', 'state_t']
+
+
+class _Sym:
+    def __init__(self, name):
+        self.name = name
+
+
+class _Imp:
+    """stand-in for loki.ir.Import: what get_all_import_map reads (symbols, rename_list) plus a label"""
+
+    def __init__(self, label, names):
+        self.label, self.symbols, self.rename_list = label, tuple(_Sym(n) for n in names), None
+
+
+class _Scope:
+    def __init__(self, imports, parent):
+        self.imports, self.parent = tuple(imports), parent
+
+
+def _pick3(k):
+    return 0 if k <= 0 else (1 if k == 1 else 2)
+
+
+def _import_map_check(idx):
+    from loki.batch.item import get_all_import_map
+    scope, chain = None, []
+    for lvl in reversed(range(len(idx))):
+        imps = [_Imp(f'L{lvl}U{u}', [IMPORT_NAMES[i]]) for u, i in enumerate(idx[lvl])]
+        scope = _Scope(imps, scope)
+        chain.insert(0, imps)
+    got = get_all_import_map(scope)
+    # reference: the innermost scope that imports a name (compared case-insensitively) provides it; within one scope
+    # the first USE statement does
+    want = {}
+    for imps in chain:
+        for imp in imps:
+            for sy in imp.symbols:
+                want.setdefault(sy.name.lower(), imp.label)
+    if set(k.lower() for k in got) != set(want):
+        return False
+    return all(got[k].label == v for k, v in want.items())
+
+
+def import_map_two_scopes(a0: int, a1: int, b0: int, b1: int) -> bool:
+    """
+    pre: 0 <= a0 < 3 and 0 <= a1 < 3 and 0 <= b0 < 3 and 0 <= b1 < 3
+    post: _
+    """
+    # routine -> module, two USE statements of one symbol each; names may coincide up to letter case
+    return _import_map_check([[_pick3(a0), _pick3(a1)], [_pick3(b0), _pick3(b1)]])
+
+
+def import_map_three_scopes(a0: int, b0: int, c0: int) -> bool:
+    """
+    pre: 0 <= a0 < 3 and 0 <= b0 < 3 and 0 <= c0 < 3
+    post: _
+    """
+    # internal procedure -> routine -> module, one USE statement each
+    return _import_map_check([[_pick3(a0)], [_pick3(b0)], [_pick3(c0)]])
+
+
+FUNCS_C21 = ['match_single_key', 'match_key_list', 'match_case_invariant', 'import_map_two_scopes', 'import_map_three_scopes']
 FUNCS_C23 = ['item_eq', 'item_hash', 'item_container_lookup', 'item_str_eq', 'item_name_parts', 'duplicate_names', 'definition_lookup']
 
 
